@@ -336,7 +336,10 @@ pub fn parse_rootdefinition_constantbuffer(
         cb_ir.lang_binding.set = Some(binding_group);
     }
 
-    assert!(!attribute_result.is_bindless);
+    // Constant buffers can not be bindless
+    if attribute_result.is_bindless {
+        return Err(TyperError::UnexpectedBindlessAttribute(cb_ir.name.location));
+    }
 
     cb_ir.members = members;
 
